@@ -175,7 +175,7 @@ PROPS = {
         assumptions=["template generation avoids zero map values and NaN/Inf/-0 (not representable / documented no-ops)"],
     ),
     "C01": dict(
-        lean_modules=["Enc.Props.C01", "Enc.Props.C01Fields", "Enc.Props.C01Float", "Enc.Props.C14Raw"],
+        lean_modules=["Enc.Props.C01", "Enc.Props.C01Fields", "Enc.Props.C01Codec", "Enc.Props.C01MapKeys", "Enc.Props.C01Omit", "Enc.Props.C01Inlined", "Enc.Props.C01Float", "Enc.Props.C14Raw"],
         variants=V_DEFAULT, areas=["json.encoder", "json.escapeIndex", "json.formatInteger", "json.appendInt", "json.appendUint", "json.constructCodec",
                                    "json.appendStructFields", "json.emptyFuncOf", "json.inlined", "json.constructMapCodec", "json.Marshal", "json.Append",
                                    "json.Encoder", "json.Escape", "json.AppendEscape", "json.appendCompactEscapeHTML", "json.constructStructType",
@@ -195,7 +195,7 @@ PROPS = {
         assumptions=["the struct-field resolution / codec construction layer is decided by differential testing, not by theorem"],
     ),
     "C02": dict(
-        lean_modules=["Enc.Props.C02", "Enc.Props.C02Any", "Enc.Props.C01Fields"],
+        lean_modules=["Enc.Props.C02", "Enc.Props.C02Any", "Enc.Props.C02Typed", "Enc.Props.C01Fields"],
         variants=V_DEFAULT, areas=["json.decoder", "json.Parse", "json.Unmarshal", "json.Decoder", "json.constructCodec", "json.constructMapCodec",
                                    "json.constructStructType", "json.appendStructFields", "json.hasNullPrefix", "json.appendToLower", "json.foldRune",
                                    "json.skipSpaces", "json.appendRune", "json.appendCoerceInvalidUTF8", "json.internalParseFlags"],
@@ -272,7 +272,7 @@ PROPS = {
                      "sync.Pool may drop buffers at any time: modelled as an empty pool"],
     ),
     "C06": dict(
-        lean_modules=["Enc.Props.C06"],
+        lean_modules=["Enc.Props.C06", "Enc.Props.C02Typed"],
         variants=V_DEFAULT, areas=["json.encoder", "json.decoder", "json.Append", "json.Parse", "json.Marshal", "json.Unmarshal", "json.Valid", "json.Tokenizer",
                                    "json.constructCodec", "json.constructCachedCodec", "json.inlined", "json.constructInlineValueEncodeFunc",
                                    "json.constructRecursiveCodec", "json.extendSlice", "json.parse", "json.startDetectingCyclesAfter", "json.maxNestingDepth"],
@@ -295,7 +295,7 @@ PROPS = {
                      "they do in encoding/json: recorded as known finding json-marshal-deep-acyclic"],
     ),
     "C09": dict(
-        lean_modules=["Enc.Props.C09"],
+        lean_modules=["Enc.Props.C09", "Enc.Props.C01Codec"],
         variants=[{"name": "default", "tags": "verif"}, {"name": "race", "tags": "verif", "race": True, "aux": True}],
         areas=["json.cache", "json.cacheLoad", "json.cacheStore", "json.constructCachedCodec", "json.Append", "json.Parse", "json.encoderBufferPool",
                "json.mapslicePool", "json.stackPool", "json.Tokenizer", "json.acquireStack", "json.releaseStack", "json.constructStructType", "json.constructRecursiveCodec", "json.Encoder", "json.Marshal", "proto.cachedCodecOf", "proto.loadCachedCodec", "proto.storeCachedCodec",
